@@ -240,7 +240,7 @@ uint64_t hash_factors(const vf_api *P, const SuperMatrix *L, const SuperMatrix *
 ld   factor_identity_ratio(const vf_api *P, const vf_mat *A, const int *perm_r, const int *perm_c,
                            const ldc *Ld, const ldc *Ud, int ncols, ld cfac);
 /* componentwise residual ratio for op(M) x = b where M is given as CSC (original scale) and
-   E = |L||U| mapped back: E_orig = Pr^T |L||U| Pc^T ; trans: 0 N, 1 T, 2 C.
+   E = |L||U| mapped back: E_orig = Pr^T |L||U| Pc^T ; trans: 0 N, 1 T, 2 C, 3 conj(M) without transposition.
    Returns max_i |r_i| / (cfac n eps (op(E)|x|)_i + n eps |b_i| + n tiny) */
 ld   solve_residual_ratio(const vf_api *P, const vf_mat *M, int trans, const ldc *x, const ldc *b,
                           const ld *Eorig /* m x n dense col-major, or NULL -> use |M| */, ld cfac);
